@@ -154,6 +154,9 @@ class Interp:
         self._seq = 0
         self._atomic_cache: Dict[int, bool] = {}
         self.assign_log: List[Tuple[str, Term, Tuple[Cond, ...], Tuple[int, ...], str]] = []
+        # literals that hold whenever execution continues because the alternative only raises (negated raise guards):
+        # they never make an effect "conditional" in the sense of skipping work on valid input
+        self.no_raise_lits: Set[Cond] = set()
         self._stack: List[str] = []
         self.notes: List[str] = []
         self.top = Frame(func, None, func.qualname)
@@ -378,9 +381,13 @@ class Interp:
             return None
         if st_t is None:
             frame.env = env_f
+            if _always_raises(s.body):
+                self.no_raise_lits.add((c, flip))        # holds whenever execution continues: the other branch only raises
             return st_f
         if st_f is None:
             frame.env = env_t
+            if s.orelse and _always_raises(s.orelse):
+                self.no_raise_lits.add((c, not flip))
             return st_t
         # both fall through: merge the environments, drop the branch condition
         merged = {}
@@ -393,7 +400,14 @@ class Interp:
                 b = b if b is not None else self.lookup_default(k, frame)
                 merged[k] = mk_ifexp(c, b, a) if flip else mk_ifexp(c, a, b)
         frame.env = merged
-        # conditions established INSIDE both branches beyond the test are not common: keep the prefix
+        # conditions established INSIDE the branches beyond the test itself (a nested branch that raised / returned) survive
+        # as a disjunction:  if a: .. elif b: .. else: raise   leaves   (a or (not a and b))
+        et, ef = st_t.conds[len(st.conds):], st_f.conds[len(st.conds):]
+        if (len(et) > 1 or len(ef) > 1) and et and ef:
+            lit = ("bool", "or", (conj(et), conj(ef)))
+            if all(x in self.no_raise_lits for x in et[1:] + ef[1:]):
+                self.no_raise_lits.add((lit, True))
+            return _State(st.conds + ((lit, True),), st.loops)
         return _State(st.conds, st.loops)
 
     def lookup_default(self, name: str, frame: Frame) -> Term:
@@ -1011,6 +1025,20 @@ def _always_leaves(body: Sequence[ast.stmt]) -> bool:
         return _always_leaves(last.body) and all(_always_leaves(h.body) for h in last.handlers) or _always_leaves(last.finalbody)
     if isinstance(last, (ast.With, ast.AsyncWith)):
         return _always_leaves(last.body)
+    return False
+
+
+def _always_raises(body: Sequence[ast.stmt]) -> bool:
+    """Does every path through `body` end in raise (syntactic, conservative)?"""
+    if not body:
+        return False
+    last = body[-1]
+    if isinstance(last, ast.Raise):
+        return True
+    if isinstance(last, ast.If):
+        return bool(last.orelse) and _always_raises(last.body) and _always_raises(last.orelse)
+    if isinstance(last, (ast.With, ast.AsyncWith)):
+        return _always_raises(last.body)
     return False
 
 
